@@ -680,9 +680,10 @@ theorem delGlyph_unwires (s : State) (w : Wired s.heap) (l g : Id) (name : Strin
   · rw [eh, e, kindOf_mark, kindOf_killGlyph w eg kng hog ky]; simpa using knf
 
 /-- `layer.newGlyph(name)` over a loaded glyph `g` (and, through the same `_insertGlyph`, `insertGlyph` and a rename
-onto the name): afterwards no registration mentions the replaced glyph or anything it owned — in particular the
-components that named it observe the NEW object, not the replaced one (the defect repaired by
-repo_fixes/C11-r3-1). -/
+onto the name): afterwards no registration mentions the replaced glyph or anything it owned — in particular no
+component that named it observes the replaced object any more (the defect repaired by repo_fixes/C11-r3-1; by
+`cross_links_exact` in the state after the operation such a component observes what the layer files under the name
+then). -/
 theorem newGlyph_unwires (s : State) (w : Wired s.heap) (l g : Id) (name : String) (hl : liveLayer s.heap l = true)
     (hf : s.heap.findNamed l .glyph name = some g) (y : Id) (hy : y = g ∨ s.heap.ownerOf y = some g) :
     ¬ Mentioned (xstep s (.base (.newGlyph l name))).1 y := by
@@ -862,6 +863,8 @@ example : Outside xremoved.heap 7 ∧ dispOf xremoved.heap 7 = none ∧ (xmutate
     (xstep xremoved (.base (.mutate 5))).2 = .mut [5, 4, 2, 1, 0] ∧ (crossTable xremoved).length = 4 := by
   unfold Outside; decide
 example : ¬ Mentioned xremoved 7 := by unfold Mentioned; decide
+/-- (the hypotheses of `loose_unmentioned`: the removed component points to no owner and is not a font) -/
+example : xremoved.heap.ownerOf 7 = none ∧ xremoved.heap.kindOf 7 ≠ some .font := by decide
 
 /-- the base glyph replaced by `newGlyph` over its name: the component observes the new object 9; the replaced
 glyph 4 and its contour 5 belong to no font and are mentioned nowhere -/
